@@ -166,7 +166,7 @@ Section OwnProofs.
         destruct (b_inq sh) as [|d q] eqn:Eq; cbn [fst snd].
         * destruct (flush_locked_ok sh _ Hcw H2) as (F1 & F2 & (F3 & F4 & F5 & F6 & F7)).
           apply OInv_intro;
-            [ rewrite F3; exact F1 | rewrite F3, F4; exact H3
+            [ rewrite F3; exact F1 | rewrite F3, F4, Eq; exact H3
             | intros _; rewrite F5; exact Hl | intros Hc; contradiction
             | intros n Hc; exfalso; apply Hn1; right; left; now exists n
             | intros _; rewrite F4; split; [exact Eq|exact F2]
